@@ -139,4 +139,33 @@ theorem specPow_spec (m a e : ℕ) : specPow m a e = (a ^ e % m, min (a ^ e) m) 
   rw [h, pow_zero] at this
   exact this
 
+/-! ### enumerations for the tiny-width cross-checks of `Props/C13.lean` -/
+
+/-- bounded enumeration -/
+def allLt (n : Nat) (p : Nat → Bool) : Bool := (List.range n).all p
+
+/-- widths `< maxBits`, all `x`, all degrees reaching the loop, **all** guesses `g < 2^bits`:
+    `guessOk → root = oracle`. -/
+def rootCross (maxBits : Nat) : Bool :=
+  allLt maxBits fun bits => allLt (2 ^ bits) fun x => allLt bits fun k =>
+    if 2 ≤ k ∧ x ≠ 0 then
+      allLt (2 ^ bits) fun g =>
+        !(guessOk bits x k g (iroot x k)) || decide (root bits x k g = .ok (iroot x k))
+    else true
+
+/-- an exact first guess `g = s` always satisfies the hypothesis (it is not vacuous at any tiny input). -/
+def rootExactGuessOk (maxBits : Nat) : Bool :=
+  allLt maxBits fun bits => allLt (2 ^ bits) fun x => allLt bits fun k =>
+    if 2 ≤ k ∧ x ≠ 0 then
+      guessOk bits x k (iroot x k) (iroot x k) && decide (root bits x k (iroot x k) = .ok (iroot x k))
+    else true
+
+/-- widths `< maxBits`, all `(x, base)`, **all** estimates: `estOk → log = oracle`. -/
+def logCross (maxBits : Nat) : Bool :=
+  allLt maxBits fun bits => allLt (2 ^ bits) fun x => allLt (2 ^ bits) fun base => allLt (2 ^ bits) fun est =>
+    if 2 ≤ base ∧ x ≠ 0 then
+      !(estOk bits base est (ilog base x)) || decide (Log.log bits x base est = .ok (ilog base x))
+    else true
+
+
 end Ruint.C13Spec
